@@ -185,6 +185,8 @@ pub struct MEdge {
     pub u: String,
     pub v: String,
     pub w: f64,
+    /// the edge's attributes (a tag unique within the case, or None)
+    pub a: Option<i32>,
 }
 
 /// kinds of policy events seen while applying operations (for non-triviality / histograms)
@@ -214,11 +216,13 @@ pub struct Model {
     pub nodes: Vec<(String, Option<i32>)>,
     pub edges: Vec<MEdge>,
     pub ev: Events,
+    /// the specification says nothing about the edge attributes of this (derived) graph
+    pub ignore_edge_attrs: bool,
 }
 
 impl Model {
     pub fn new(spec: SpecBits) -> Model {
-        Model { spec, nodes: vec![], edges: vec![], ev: Events::default() }
+        Model { spec, nodes: vec![], edges: vec![], ev: Events::default(), ignore_edge_attrs: false }
     }
     pub fn has(&self, n: &str) -> bool {
         self.nodes.iter().any(|(x, _)| x == n)
@@ -247,6 +251,10 @@ impl Model {
     }
     /// Returns "Ok" or the error kind.
     pub fn add_edge(&mut self, u: &str, v: &str, w: f64) -> &'static str {
+        self.add_edge_a(u, v, w, None)
+    }
+    /// `a`: the attributes carried by the edge object
+    pub fn add_edge_a(&mut self, u: &str, v: &str, w: f64, a: Option<i32>) -> &'static str {
         let s = self.spec;
         if !s.loops && u == v {
             self.ev.self_loop_policy += 1;
@@ -279,7 +287,7 @@ impl Model {
                 self.ev.dup_heavier += 1;
             }
         }
-        let new_edge = MEdge { u: u.to_string(), v: v.to_string(), w };
+        let new_edge = MEdge { u: u.to_string(), v: v.to_string(), w, a };
         if s.multi || existing.is_empty() {
             self.edges.push(new_edge);
             self.ev.accepted_edges += 1;
@@ -296,8 +304,12 @@ impl Model {
         }
     }
     pub fn add_edges(&mut self, es: &[(String, String, f64)]) -> &'static str {
-        for (i, (u, v, w)) in es.iter().enumerate() {
-            let r = self.add_edge(u, v, *w);
+        let es: Vec<(String, String, f64, Option<i32>)> = es.iter().map(|(u, v, w)| (u.clone(), v.clone(), *w, None)).collect();
+        self.add_edges_a(&es)
+    }
+    pub fn add_edges_a(&mut self, es: &[(String, String, f64, Option<i32>)]) -> &'static str {
+        for (i, (u, v, w, a)) in es.iter().enumerate() {
+            let r = self.add_edge_a(u, v, *w, *a);
             if r != "Ok" {
                 if i + 1 < es.len() || i > 0 {
                     self.ev.batch_fail += 1;
@@ -308,12 +320,32 @@ impl Model {
         "Ok"
     }
 
+    /// canonical edge multiset with attributes
+    pub fn edge_multiset_a(&self) -> Vec<EdgeKeyA> {
+        let mut v: Vec<_> = self.edges.iter().map(|e| canon_edge_a(self.spec.directed, &e.u, &e.v, e.w, e.a)).collect();
+        v.sort();
+        v
+    }
     /// canonical edge multiset: (u, v, weight bits), endpoints sorted when undirected
     pub fn edge_multiset(&self) -> Vec<(String, String, u64)> {
         let mut v: Vec<_> = self.edges.iter().map(|e| canon_edge(self.spec.directed, &e.u, &e.v, e.w)).collect();
         v.sort();
         v
     }
+}
+
+/// canonical edge with its attributes
+pub type EdgeKeyA = (String, String, u64, Option<i32>);
+
+pub fn canon_edge_a(directed: bool, u: &str, v: &str, w: f64, a: Option<i32>) -> EdgeKeyA {
+    let (x, y, b) = canon_edge(directed, u, v, w);
+    (x, y, b, a)
+}
+
+pub fn graph_edge_multiset_a(g: &G) -> Vec<EdgeKeyA> {
+    let mut v: Vec<_> = g.get_all_edges().iter().map(|e| canon_edge_a(g.specs.directed, &e.u, &e.v, e.weight, e.attributes)).collect();
+    v.sort();
+    v
 }
 
 pub fn wbits(w: f64) -> u64 {
@@ -364,11 +396,27 @@ pub fn reset_edge_pool() {
 /// case, every second request hands out a clone of that very `Arc` instead of a new allocation: a
 /// caller may legitimately add one edge object several times (`vec![edge; 2]`), and code that
 /// identifies edges by address must cope with it.
+///
+/// Two requests in three carry attributes: a tag that is unique within the case (the request's
+/// sequence number), so that every view of the graph can be checked to return the very edge that
+/// was stored, and so that an edge with attributes is sometimes replaced by one without (and
+/// vice versa). The caller reads the attributes from the returned object.
 pub fn mk_edge(u: &str, v: &str, w: f64) -> Arc<Edge<String, i32>> {
-    let fresh = || if w.is_nan() { Edge::new(u.to_string(), v.to_string()) } else { Edge::with_weight(u.to_string(), v.to_string(), w) };
     EDGE_POOL.with(|p| {
         let mut p = p.borrow_mut();
         p.1 += 1;
+        let seq = p.1;
+        let fresh = || -> Arc<Edge<String, i32>> {
+            if seq % 3 == 0 {
+                if w.is_nan() {
+                    Edge::new(u.to_string(), v.to_string())
+                } else {
+                    Edge::with_weight(u.to_string(), v.to_string(), w)
+                }
+            } else {
+                Arc::new(Edge { u: u.to_string(), v: v.to_string(), weight: w, attributes: Some(seq as i32) })
+            }
+        };
         let reuse = p.1 % 2 == 0;
         let key = (u.to_string(), v.to_string(), wbits(w));
         if let Some(e) = p.0.get(&key) {
@@ -400,8 +448,9 @@ pub fn apply(op: &Op, wmode: u8, m: &mut Model, g: &mut G) -> (String, String) {
         }
         Op::AddEdge(u, v, w) => {
             let (u, v, w) = (uname(*u), uname(*v), weight_of(wmode, *w));
-            let mr = m.add_edge(&u, &v, w);
-            let gr = g.add_edge(mk_edge(&u, &v, w));
+            let e = mk_edge(&u, &v, w);
+            let mr = m.add_edge_a(&u, &v, w, e.attributes);
+            let gr = g.add_edge(e);
             (mr.into(), crate::core::res_kind(&gr))
         }
         Op::AddEdgeTuple(u, v) if matches!(wmode, 1 | 3 | 4 | 5) => apply(&Op::AddEdge(*u, *v, W(3)), wmode, m, g),
@@ -416,8 +465,10 @@ pub fn apply(op: &Op, wmode: u8, m: &mut Model, g: &mut G) -> (String, String) {
         }
         Op::AddEdges(es) => {
             let es: Vec<(String, String, f64)> = es.iter().map(|(u, v, w)| (uname(*u), uname(*v), weight_of(wmode, *w))).collect();
-            let mr = m.add_edges(&es);
-            let gr = g.add_edges(es.iter().map(|(u, v, w)| mk_edge(u, v, *w)).collect());
+            let objs: Vec<Arc<Edge<String, i32>>> = es.iter().map(|(u, v, w)| mk_edge(u, v, *w)).collect();
+            let esa: Vec<(String, String, f64, Option<i32>)> = es.iter().zip(objs.iter()).map(|((u, v, w), e)| (u.clone(), v.clone(), *w, e.attributes)).collect();
+            let mr = m.add_edges_a(&esa);
+            let gr = g.add_edges(objs);
             (mr.into(), crate::core::res_kind(&gr))
         }
         Op::AddEdgeTuples(es) => {
